@@ -80,7 +80,7 @@ func spaces(thorough bool) []Space {
 	ctlH4 := []string{"r:1", "r:2", "r:3", "r:4", "c", "s:r", "s:w", "t", "b"}
 	// ordered so that the largest spaces run last (a deadline then caps only them)
 	return []Space{
-		{Name: "ampjit", Kind: "ampjit", Pays: []string{"A10r0g", "A11r0g", "A11r0b", "A11r+g", "A2sr0g", "A2sr-g"}, Amts: amts3, Exps: exps, Ctl: ctlR, Depth: 4},
+		{Name: "ampjit", Kind: "ampjit", Pays: []string{"A10r0g", "A11r0g", "A11r0b", "A11r+g", "A2sr0g", "A2sr-g"}, Amts: amts3, Exps: exps, Ctl: ctlR, Depth: 3},
 		{Name: "keysend", Kind: "keysend", Pays: []string{"Kr", "Kw", "Km", "L", "Mr0"}, Amts: amts5, Exps: exps, Ctl: ctlR, Depth: 5},
 		{Name: "zero", Kind: "zero", Pays: []string{"L", "Mr0", "Mr+", "Mr-", "Mw0"}, Amts: amts5, Exps: exps, Ctl: ctlR, Depth: 4},
 		{Name: "hold", Kind: "hold", Pays: []string{"L", "Mr0", "Mr+", "Mr-", "Mw0"}, Amts: amts5, Exps: exps, Ctl: ctlH, Depth: 4},
